@@ -3,14 +3,18 @@
 package checks
 
 import (
+	"context"
 	"fmt"
 	"math/big"
+	"reflect"
+	"sort"
 	"strconv"
 	"strings"
 	"time"
 
 	"github.com/vipnode/vipnode/v2/internal/verif/vh"
 	"github.com/vipnode/vipnode/v2/internal/verif/vsched"
+	"github.com/vipnode/vipnode/v2/jsonrpc2"
 	"github.com/vipnode/vipnode/v2/pool/store"
 )
 
@@ -63,7 +67,7 @@ func c07Balance(pw *vh.PoolWorld, wallet string) (*big.Int, *big.Int) {
 
 func c07Events(cfg c07Cfg) []string {
 	evs := []string{"accrue W1 499", "accrue W1 1", "accrue W1 100000", "accrue W1 -300", "dep W1 600", "dep W1 1",
-		"withdraw W1 ok", "withdraw W1 fail", "forged-withdraw W1", "withdraw W2 ok", "accrue W2 700"}
+		"withdraw W1 ok", "withdraw W1 fail", "withdraw W1 gone", "forged-withdraw W1", "withdraw W2 ok", "accrue W2 700"}
 	return evs
 }
 
@@ -118,7 +122,8 @@ func c07BFS(cfg c07Cfg, depth, shard, nshards int) vh.Unit {
 				// model
 				balance := w.m.bal(wallet)
 				eligible := f[0] == "withdraw" && (cfg.min == "off" || balance.Cmp(big10(cfg.min)) >= 0)
-				settleOK := len(f) > 2 && f[2] == "ok"
+				settleOK := len(f) > 2 && f[2] != "fail"
+				gone := len(f) > 2 && f[2] == "gone" // the requester hung up when settlement began: whatever is reported, paid <=> cleared
 				wantAmount := new(big.Int).Sub(balance, fee)
 				if eligible && settleOK {
 					w.m.paid.Add(w.m.paid, wantAmount)
@@ -147,7 +152,7 @@ func c07BFS(cfg c07Cfg, depth, shard, nshards int) vh.Unit {
 					u.Violate("payout/settle-count", fmt.Sprintf("%s: %d settlement attempts for one eligible withdrawal (err=%v)", desc, len(newSettles), err), vh.BFSReplay(name, hist))
 				case eligible && newSettles[0].Amount != wantAmount.String():
 					u.Violate("payout/wrong-amount", fmt.Sprintf("%s: settled %s, owed balance-fee = %s", desc, newSettles[0].Amount, wantAmount), vh.BFSReplay(name, hist))
-				case eligible && settleOK && err != nil:
+				case eligible && settleOK && err != nil && !gone:
 					u.Violate("payout/settled-but-error", fmt.Sprintf("%s: %v", desc, err), vh.BFSReplay(name, hist))
 				case eligible && settleOK && (depA.Sign() != 0 || creA.Sign() != 0):
 					u.Violate("payout/balance-not-cleared", fmt.Sprintf("%s: paid %s, but the wallet still holds deposit %s + credit %s to withdraw again", desc, newSettles[0].Amount, depA, creA), vh.BFSReplay(name, hist))
@@ -350,6 +355,7 @@ func c07Chain(cfg c07Cfg, depth, shard, nshards int) vh.Unit {
 				return &world{cw: cw, m: &c07ChainModel{deposit: map[string]int64{}, credit: map[string]int64{}, locked: map[string]bool{}, cached: map[string]bool{}}}
 			},
 			Events: func(interface{}) []string { return evs },
+			Close:  func(wi interface{}) { wi.(*world).cw.Close() },
 			Apply: func(wi interface{}, ev string, judge bool, hist []string) {
 				w := wi.(*world)
 				if w.open {
@@ -499,6 +505,110 @@ func c07Chain(cfg c07Cfg, depth, shard, nshards int) vh.Unit {
 	}}
 }
 
+// the whole RPC surface the pool binary registers (read from the server's registry, plus every
+// exported method of the registered services under both prefixes): nothing but a correctly signed
+// pool_withdraw makes a settlement or moves a balance, whatever unsigned arguments are sent
+func c07RPCSurface(cfg c07Cfg) vh.Unit {
+	name := fmt.Sprintf("rpc-surface/min%s-fee%s", cfg.min, cfg.fee)
+	cast := vh.StdCast()
+	return vh.Unit{Name: name, Run: func(u *vh.U) {
+		pw := c07World(cfg)
+		w1 := cast.ByName["W1"]
+		pw.Store.AddAccountBalance(store.Account(w1.Wallet), big.NewInt(100000))
+		pw.BStore.Deposits[store.Account(w1.Wallet)] = big.NewInt(600)
+		srv := &jsonrpc2.Server{}
+		if err := vh.RegisterProd(srv, pw); err != nil {
+			panic(err)
+		}
+		names := map[string]bool{}
+		for _, n := range vh.RegisteredMethods(srv) {
+			names[n] = true
+		}
+		registered := len(names)
+		for _, recv := range []interface{}{pw.Pool, pw.Payment} {
+			t := reflect.TypeOf(recv)
+			for i := 0; i < t.NumMethod(); i++ {
+				m := t.Method(i).Name
+				for _, prefix := range []string{"pool_", "vipnode_"} {
+					names[prefix+strings.ToLower(m[:1])+m[1:]] = true
+				}
+			}
+		}
+		var sorted []string
+		for n := range names {
+			sorted = append(sorted, n)
+		}
+		sort.Strings(sorted)
+		now := vsched.Now().UnixNano()
+		values := []string{`"` + w1.Wallet + `"`, `"` + strings.ToLower(w1.Wallet) + `"`, `"` + cast.ByName["C1"].NodeID + `"`, `""`, `0`, fmt.Sprint(now), `null`, `{}`}
+		answered := 0
+		var tuples [][]string
+		var gen func(prefix []string, left int)
+		gen = func(prefix []string, left int) {
+			tuples = append(tuples, append([]string{}, prefix...))
+			if left == 0 {
+				return
+			}
+			for _, v := range values {
+				gen(append(prefix, v), left-1)
+			}
+		}
+		gen(nil, 3)
+		// four-argument forms: (sig, identity, nonce, x)
+		for _, sig := range []string{`""`, `"` + w1.Wallet + `"`} {
+			for _, id := range values[:3] {
+				for _, x := range values {
+					tuples = append(tuples, []string{sig, id, fmt.Sprint(now), x})
+				}
+			}
+		}
+		before := c07Snapshot(pw, cast)
+		for _, method := range sorted {
+			for _, args := range tuples {
+				msg, err := vh.ParseMessage(fmt.Sprintf(`{"jsonrpc":"2.0","id":1,"method":%q,"params":[%s]}`, method, strings.Join(args, ",")))
+				if err != nil {
+					panic(err)
+				}
+				var resp *jsonrpc2.Message
+				p := vh.Recover(func() { resp = srv.Handle(vh.CtxWith(pw.Host("stranger").Service()), msg) })
+				u.R.Evaluations++
+				u.R.States++
+				u.R.Transitions++
+				u.R.Traces++
+				if p == "" && resp != nil && resp.Response != nil && resp.Error == nil {
+					answered++
+				}
+				if len(pw.Settles) > 0 {
+					u.Violate("payout/unsigned-request-paid/"+method, fmt.Sprintf("config %+v: %s(%s) without any signature made the settlement %+v", cfg, method, strings.Join(args, ","), pw.Settles), nil)
+					return
+				}
+				if after := c07Snapshot(pw, cast); after != before {
+					u.Violate("payout/unsigned-request-moved-balance/"+method, fmt.Sprintf("config %+v: %s(%s) without any signature changed the balances from %s to %s", cfg, method, strings.Join(args, ","), before, after), nil)
+					return
+				}
+			}
+		}
+		u.Observe(fmt.Sprintf("registered=%d candidates=%d", registered, len(sorted)))
+		// positive control: the same surface does pay a correctly signed request
+		sig := w1.SignWallet("pool_withdraw", now+1)
+		msg, _ := vh.ParseMessage(fmt.Sprintf(`{"jsonrpc":"2.0","id":2,"method":"pool_withdraw","params":[%q,%q,%d]}`, sig, w1.Wallet, now+1))
+		resp := srv.Handle(context.Background(), msg)
+		if len(pw.Settles) != 1 || resp == nil || resp.Response == nil || resp.Error != nil {
+			u.Violate("payout/rpc-surface/signed-withdrawal-not-served", fmt.Sprintf("config %+v: settlements %+v reply %s", cfg, pw.Settles, vh.ShortJSON(resp)), nil)
+		}
+		if registered == 0 {
+			u.Violate("payout/rpc-surface/registry-not-readable", "the server's method registry could not be enumerated", nil)
+		}
+		u.Sample(fmt.Sprintf("%d registered + %d derived method names x %d unsigned argument tuples (%d answered without error)", registered, len(sorted)-registered, len(tuples), answered))
+	}}
+}
+
+func c07Snapshot(pw *vh.PoolWorld, cast *vh.Cast) string {
+	d1, c1 := c07Balance(pw, cast.ByName["W1"].Wallet)
+	d2, c2 := c07Balance(pw, cast.ByName["W2"].Wallet)
+	return fmt.Sprintf("W1 %s+%s W2 %s+%s", d1, c1, d2, c2)
+}
+
 func init() {
 	vh.Register(&vh.Check{
 		ID: "C07", Level: "model_checking",
@@ -523,7 +633,7 @@ func init() {
 					bound = 4
 				}
 				us = append(us, c07Race(cfg, 2, bound), c07Race(cfg, 3, bound-1))
-				us = append(us, c07RaceOn(vh.Badger, cfg, 2, bound-1))
+				us = append(us, c07RaceOn(vh.Badger, cfg, 2, bound-1), c07RPCSurface(cfg))
 				cd, cn := 4, 5
 				if tier == "thorough" {
 					cd, cn = 6, 16
